@@ -23,7 +23,8 @@ def handle (s : S) (i : Nat) (j : Json) : S × List Json :=
     if failed then
       (s, (if predictedOk then [verdictDiff i "block processing" (Json.str "ok") (Json.mkObj [("blockErr", fld j "blockErr"), ("blockPanic", fld j "blockPanic")])] else []) ++
           [verdictViol i "C18.block_ok" (Json.mkObj [("h", fld j "h"), ("blockErr", fld j "blockErr"), ("blockPanic", fld j "blockPanic"),
-            ("txs", Json.arr (((fld j "txs").getArr?.toOption.getD #[]).map (fun t => fld t "kind")))])])
+            ("txs", Json.arr (((fld j "txs").getArr?.toOption.getD #[]).map (fun t => fld t "kind"))),
+            ("shocks", fld j "shocks"), ("lastShock", ((fld j "shocks").getArr?.toOption.getD #[]).back?.getD .null)])])
     else (s, [verdictOk i])
   | some "stats" => (s, [])
   | _ => (s, [verdictBad i "unknown t"])
